@@ -103,6 +103,46 @@ def _reset_before_connect(ctx, R, roles):
     R.check(good, "DOM-reset", ca.qualname, "clear_all() forgets every parked packet", "clear_all() does not reset the store to empty", ca.loc())
 
 
+def _never_mutated(ctx, mod, name):
+    """A module-level container that is only ever read: bound once, no item store / deletion / augmented assignment / mutating
+    method on it anywhere in the module, and not passed to a package function whose parameter is written through."""
+    from ..dataflow import MUTATING_METHODS
+    if len(mod.assigns.get(name, ())) != 1:
+        return False
+    for f in mod.all_funcs:
+        shadow = name in f.params or any(isinstance(n, ast.Name) and n.id == name and isinstance(n.ctx, ast.Store) for n in walk_own(f.node))
+        if shadow:
+            continue
+        for n in walk_own(f.node):
+            if isinstance(n, (ast.Subscript, ast.Attribute)) and isinstance(n.ctx, (ast.Store, ast.Del)):
+                b = n.value
+                while isinstance(b, (ast.Subscript, ast.Attribute)):
+                    b = b.value
+                if isinstance(b, ast.Name) and b.id == name:
+                    return False
+            if isinstance(n, ast.AugAssign) and isinstance(n.target, ast.Name) and n.target.id == name:
+                return False
+            if isinstance(n, (ast.Global,)) and name in n.names:
+                return False
+            if isinstance(n, ast.Call):
+                if isinstance(n.func, ast.Attribute) and n.func.attr in MUTATING_METHODS:
+                    b = n.func.value
+                    while isinstance(b, (ast.Subscript, ast.Attribute)):
+                        b = b.value
+                    if isinstance(b, ast.Name) and b.id == name:
+                        return False
+                cs = ctx.cg.site(n)
+                if cs is not None and cs.callees:
+                    for callee in cs.callees:
+                        ms = ctx.modsets.get(callee) or ()
+                        if not ms:
+                            continue
+                        for p_, a_ in cs.bind(callee).items():
+                            if isinstance(unawait(a_), ast.Name) and unawait(a_).id == name and any(q == p_ for q, _attr in ms):
+                                return False
+    return True
+
+
 def _census(ctx, R, roles):
     from ..dataflow import MUTATING_METHODS
     for role, cls in (("device", roles.dev_cls), ("io", roles.io_cls)):
@@ -152,6 +192,13 @@ def _census(ctx, R, roles):
         for e in exprs:
             mutable = isinstance(e, (ast.Dict, ast.List, ast.Set, ast.ListComp, ast.DictComp, ast.SetComp)) or \
                 (isinstance(e, ast.Call) and not (isinstance(e.func, ast.Attribute) and e.func.attr == "getLogger"))
+            if mutable and isinstance(e, ast.Call):
+                fn = e.func
+                nm = fn.attr if isinstance(fn, ast.Attribute) else fn.id if isinstance(fn, ast.Name) else ""
+                if nm in ("Struct", "frozenset", "tuple", "bytes", "compile", "namedtuple", "int", "str", "float", "calcsize", "format", "join", "encode"):
+                    mutable = False        # an immutable value
+            if mutable and _never_mutated(ctx, roles.mod, name):
+                mutable = False            # a constant table: bound once, never written through, never handed to code that writes its argument
             R.check(not mutable, "CENSUS", "%s.%s" % (roles.mod.name, name), "module-level constant",
                     "module-level mutable object `%s` in %s: state shared across sessions and devices" % (name, roles.mod.name), roles.mod.relpath)
     for f in roles.mod.all_funcs:
